@@ -74,6 +74,22 @@ func (f *fakeClk) MeasureClockOffset(ctx context.Context) (time.Time, time.Durat
 	return time.Time{}, 0, errFake
 }
 
+// runBubble is synctest.Run with an explicit happens-before edge from the end of the bubble's
+// root function to the caller (the race detector does not see one through synctest.Run).
+func runBubble(f func()) {
+	ch := make(chan struct{}, 1)
+	defer func() {
+		select {
+		case <-ch:
+		default:
+		}
+	}()
+	synctest.Run(func() {
+		f()
+		ch <- struct{}{}
+	})
+}
+
 type outcome struct {
 	ret     int64
 	front   []int // ids in slice order
@@ -140,9 +156,11 @@ func runScenario(t0, deadline int64, specs []spec) (o outcome) {
 				}
 			}
 		}()
-		synctest.Run(body)
+		runBubble(body)
 	}()
 	o.last = t0
+	mu.Lock()
+	defer mu.Unlock()
 	for _, r := range rets {
 		if r > o.last {
 			o.last = r
@@ -228,7 +246,7 @@ func (blockClk) MeasureClockOffset(ctx context.Context) (time.Time, time.Duratio
 func runGuard(evs []string) string {
 	var res []string
 	bad := false
-	synctest.Run(func() {
+	runBubble(func() {
 		var c client.ReferenceClockClient
 		var inside context.CancelFunc
 		var insideDone chan struct{}
